@@ -400,7 +400,8 @@ func (fr *Frame) appendSlices(st *State, et types.Type, s, t Term) Term {
 	nl := app("Int", "+", ls, lt)
 	ncap := r.havoc("cap", "Int")
 	r.assume(st, app("Bool", ">=", ncap, nl))
-	res := r.def("appended", app("Slice", "mk_slice", ite(eq(nl, intLit(0)), app("Int", "sl_arr", s), ref), ite(eq(nl, intLit(0)), app("Int", "sl_off", s), intLit(0)), nl, ite(eq(nl, intLit(0)), app("Int", "sl_cap", s), ncap)))
+	res := r.name("appended", app("Slice", "mk_slice", ite(eq(nl, intLit(0)), app("Int", "sl_arr", s), ref), ite(eq(nl, intLit(0)), app("Int", "sl_off", s), intLit(0)), nl, ite(eq(nl, intLit(0)), app("Int", "sl_cap", s), ncap)))
 	r.noteAssume("append always copies into a fresh backing array (aliasing through spare capacity is not modelled)")
+	// (an append of zero elements returns the old slice; writes through the result are then not fresh)
 	return res
 }
